@@ -1,6 +1,6 @@
 (* ImpFactsEq.v - sbdf_obj_eq of src/object.c from the source.  The comparison helpers are re-proved
    for strings / byte arrays stored anywhere in the memory and for frames that carry the cell heap. *)
-From Sbdf Require Import ImpCall Gen.Prog Gen.Consts Base Prim BaseFacts ImpFacts ImpFacts7 ImpFactsFrame ImpFactsCmp ImpFactsHeap ImpFactsRead ImpFactsCells.
+From Sbdf Require Import ImpCall Gen.Prog Gen.Consts Base Prim BaseFacts ImpBase ImpFactsCells.
 From Coq Require Import ZifyBool.
 Local Open Scope Z_scope.
 Ltac Zify.zify_post_hook ::= Z.div_mod_to_equations.
